@@ -21,6 +21,9 @@ pub struct Data {
     /// restricts the member to one float type ("f64": offsets that f32 cannot resolve)
     #[serde(default)]
     pub only_float: Option<String>,
+    /// large replicated members (n in {1025, 4097}): reduced target sets (enet: column 0, mtl: all 3)
+    #[serde(default)]
+    pub reduced_targets: bool,
 }
 
 /// Which per-column (offset, scale) images of a design are enumerated.
@@ -34,6 +37,8 @@ pub enum Images {
     PerColumn,
     /// the full 9^p cross product
     Cross,
+    /// three images, the same for every column: (0, 1), (5, 1), (0, 1e3) (large replicated members)
+    Few,
 }
 
 pub struct Design {
@@ -59,6 +64,13 @@ fn full_factorial(levels: &[usize], reps: usize) -> Vec<Vec<i64>> {
 /// Lattice points (i, j) of the k x k lattice with |i - j| <= 1 (strongly correlated columns): 3k - 2 points.
 fn band(k: usize) -> Vec<Vec<i64>> {
     en::grid(&[k, k]).into_iter().filter(|g| (g[0] as i64 - g[1] as i64).abs() <= 1).map(|g| g.iter().map(|&v| v as i64).collect()).collect()
+}
+
+fn latin() -> Vec<Vec<i64>> {
+    en::grid(&[3, 3]).into_iter().map(|g| vec![g[0] as i64, g[1] as i64, ((g[0] + g[1]) % 3) as i64]).collect()
+}
+fn cyclic(base: &[Vec<i64>], n: usize) -> Vec<Vec<i64>> {
+    (0..n).map(|i| base[i % base.len()].clone()).collect()
 }
 
 pub fn is_tall(id: &str) -> bool {
@@ -119,6 +131,13 @@ pub fn designs() -> Vec<Design> {
         d("p2_n24_ff4x6", full_factorial(&[4, 6], 1), Skip, Same),
         d("p2_n40_ff5x8", full_factorial(&[5, 8], 1), Same, Same),
         d("p2_n40_frac14x14_band", band(14), Same, Same),
+        // ---- large replicated members (size thresholds 1024 / 4096): base design repeated cyclically
+        d("p1_n1025_4levels_cyclic", cyclic(&full_factorial(&[4], 1), 1025), Skip, Few),
+        d("p2_n1025_ff2x3_cyclic", cyclic(&full_factorial(&[2, 3], 1), 1025), Few, Few),
+        d("p3_n1025_latin_square_cyclic", cyclic(&latin(), 1025), Skip, Few),
+        d("p1_n4097_4levels_cyclic", cyclic(&full_factorial(&[4], 1), 4097), Skip, Few),
+        d("p2_n4097_ff2x3_cyclic", cyclic(&full_factorial(&[2, 3], 1), 4097), Skip, Few),
+        d("p3_n4097_latin_square_cyclic", cyclic(&latin(), 4097), Skip, Few),
     ]
 }
 
@@ -127,6 +146,12 @@ pub fn images(p: usize, mode: Images) -> Vec<(Vec<f64>, Vec<f64>)> {
     let pairs: Vec<(f64, f64)> = OFFSETS.iter().flat_map(|&o| SCALES.iter().map(move |&s| (o, s))).collect();
     let mut out: Vec<(Vec<f64>, Vec<f64>)> = Vec::new();
     if mode == Images::Skip {
+        return out;
+    }
+    if mode == Images::Few {
+        for (o, s) in [(0.0, 1.0), (5.0, 1.0), (0.0, 1e3)] {
+            out.push((vec![o; p], vec![s; p]));
+        }
         return out;
     }
     if p == 1 || mode == Images::Cross {
@@ -186,11 +211,12 @@ pub fn enumerate(thorough: bool) -> Vec<Data> {
             continue;
         }
         let p = d.pts[0].len();
+        let big = d.pts.len() > 1000;
         let z = centred(&d.pts);
         let y = targets(&z);
-        for (os, ss) in images(p, mode) {
+        for (os, ss) in images(p, mode).into_iter().take(if big && !thorough { 1 } else { usize::MAX }) {
             let x: Vec<Vec<f64>> = z.iter().map(|r| (0..p).map(|j| q((r[j] + os[j]) * ss[j])).collect()).collect();
-            out.push(Data { design: d.id.to_string(), variant: "full_rank".into(), offsets: os.clone(), scales: ss.clone(), x, y: y.clone(), ols_only: false, only_float: Option::None });
+            out.push(Data { design: d.id.to_string(), variant: "full_rank".into(), offsets: os.clone(), scales: ss.clone(), x, y: y.clone(), ols_only: false, only_float: Option::None, reduced_targets: big });
         }
         // tall designs: strongly offset images, OLS only ("whatever the offsets of the features")
         if is_tall(d.id) {
@@ -210,6 +236,7 @@ pub fn enumerate(thorough: bool) -> Vec<Data> {
                         y: y.clone(),
                         ols_only: true,
                         only_float: if f64_only { Some("f64".to_string()) } else { Option::None },
+                        reduced_targets: false,
                     });
                 }
             }
@@ -222,7 +249,7 @@ pub fn enumerate(thorough: bool) -> Vec<Data> {
             const K: [f64; 3] = [1.0, 2.0, -1.0];
             const L: [f64; 3] = [3.0, -1.0, 2.0];
             let ye: Vec<Vec<f64>> = z.iter().map(|r| (0..3).map(|t| C[t] + K[t] * (2.0 * r[0]) * (2.0 * r[0]) + if p > 1 { L[t] * r[1] } else { 0.0 }).collect()).collect();
-            out.push(Data { design: d.id.to_string(), variant: "even_targets".into(), offsets: vec![0.0; p], scales: vec![1.0; p], x: z.clone(), y: ye, ols_only: false, only_float: Option::None });
+            out.push(Data { design: d.id.to_string(), variant: "even_targets".into(), offsets: vec![0.0; p], scales: vec![1.0; p], x: z.clone(), y: ye, ols_only: false, only_float: Option::None, reduced_targets: big });
         }
         // rank-deficient variants (p <= 2 so that p stays <= 3): same image for all columns
         let variants = d.id == "p1_n6_3levels_x2" || (thorough && d.id == "p2_n4_ff2x2");
@@ -231,10 +258,10 @@ pub fn enumerate(thorough: bool) -> Vec<Data> {
                 let x: Vec<Vec<f64>> = z.iter().map(|r| (0..p).map(|j| q((r[j] + os[j]) * ss[j])).collect()).collect();
                 for c in if thorough { vec![0.0, 1.0, 5000.0] } else { vec![1.0] } {
                     let xc: Vec<Vec<f64>> = x.iter().map(|r| r.iter().cloned().chain(std::iter::once(c)).collect()).collect();
-                    out.push(Data { design: d.id.to_string(), variant: format!("const_col={}", c), offsets: os.clone(), scales: ss.clone(), x: xc, y: y.clone(), ols_only: false, only_float: Option::None });
+                    out.push(Data { design: d.id.to_string(), variant: format!("const_col={}", c), offsets: os.clone(), scales: ss.clone(), x: xc, y: y.clone(), ols_only: false, only_float: Option::None, reduced_targets: big });
                 }
                 let xd: Vec<Vec<f64>> = x.iter().map(|r| r.iter().cloned().chain(std::iter::once(r[0])).collect()).collect();
-                out.push(Data { design: d.id.to_string(), variant: "dup_col0".into(), offsets: os.clone(), scales: ss.clone(), x: xd, y: y.clone(), ols_only: false, only_float: Option::None });
+                out.push(Data { design: d.id.to_string(), variant: "dup_col0".into(), offsets: os.clone(), scales: ss.clone(), x: xd, y: y.clone(), ols_only: false, only_float: Option::None, reduced_targets: big });
             }
         }
     }
